@@ -19,8 +19,12 @@
 package main
 
 import (
+	"bytes"
 	"crypto/sha256"
 	"fmt"
+	"math"
+	"os"
+	"os/exec"
 	"runtime"
 	"sort"
 	"strconv"
@@ -81,6 +85,7 @@ type cfg struct {
 	hy, fin, ns                int
 	tk, sk                     int // tk: batch time-out kind (0: t ms, 1: negative, 2: zero, 3: 1ns, 4: large); sk: barrier skew
 	uq                         int    // 1: WithQueueSize(0), the queue is an unbuffered channel (q is ignored)
+	bk                         int    // batch-size corner: 1: WithBatchSize(0), 2: WithBatchSize(-1), 3: WithBatchSize(math.MinInt) (b is ignored)
 	dm                         int    // 1: every Enqueue picks a write mode (set / delete / delete+set / set+delete) for its object
 	md                         string // same-batch: the write modes of the successive Enqueues, one digit each
 	seed                       uint64
@@ -92,8 +97,8 @@ func (c cfg) line() string {
 		md = "-"
 	}
 
-	return fmt.Sprintf("cfg kind=%s q=%d b=%d t=%d tk=%d p=%d o=%d n=%d fl=%d stop=%d hy=%d fin=%d ns=%d sk=%d uq=%d dm=%d md=%s seed=%d",
-		c.kind, c.q, c.b, c.t, c.tk, c.p, c.o, c.n, c.fl, c.stop, c.hy, c.fin, c.ns, c.sk, c.uq, c.dm, md, c.seed)
+	return fmt.Sprintf("cfg kind=%s q=%d b=%d t=%d tk=%d p=%d o=%d n=%d fl=%d stop=%d hy=%d fin=%d ns=%d sk=%d uq=%d bk=%d dm=%d md=%s seed=%d",
+		c.kind, c.q, c.b, c.t, c.tk, c.p, c.o, c.n, c.fl, c.stop, c.hy, c.fin, c.ns, c.sk, c.uq, c.bk, c.dm, md, c.seed)
 }
 
 // timeout is the configured batch time-out: besides the plain `t` ms, the legal corner values (a timer with a
@@ -161,6 +166,8 @@ func parseCfg(l string) (cfg, bool) {
 			c.sk = int(n)
 		case "uq":
 			c.uq = int(n)
+		case "bk":
+			c.bk = int(n)
 		case "dm":
 			c.dm = int(n)
 		case "md":
@@ -207,6 +214,10 @@ func (w *world) recLocked(kind string, args ...int) {
 		sb.WriteString(strconv.Itoa(a))
 	}
 	w.ev = append(w.ev, sb.String())
+	if streamEvents {
+		// child process: the parent must see what happened before a crash
+		fmt.Println("EV " + sb.String())
+	}
 	switch kind {
 	case "ec", "hk", "er":
 		if w.plog == nil {
@@ -412,7 +423,14 @@ func newWorld(c cfg) *world {
 	} else if c.q > 0 {
 		opts = append(opts, kvstore.WithQueueSize(c.q))
 	}
-	if c.b > 0 {
+	switch {
+	case c.bk == 1:
+		opts = append(opts, kvstore.WithBatchSize(0))
+	case c.bk == 2:
+		opts = append(opts, kvstore.WithBatchSize(-1))
+	case c.bk == 3:
+		opts = append(opts, kvstore.WithBatchSize(math.MinInt))
+	case c.b > 0:
 		opts = append(opts, kvstore.WithBatchSize(c.b))
 	}
 	w.bw = kvstore.NewBatchedWriter(&recStore{KVStore: w.base, w: w}, opts...)
@@ -606,6 +624,9 @@ func run(c cfg) []string {
 
 // run2 also returns the per-producer logs.
 func run2(c cfg) ([]string, map[int][]string) {
+	if c.kind == "bcorner" && os.Getenv("C08_BCORNER_CHILD") == "" {
+		return bcornerParent(c)
+	}
 	w := newWorld(c)
 	ev := runIn(w)
 	w.mu.Lock()
@@ -618,9 +639,70 @@ func run2(c cfg) ([]string, map[int][]string) {
 	return ev, plog
 }
 
+// bcornerChild is the scenario of kind `bcorner`, run inside a child process (a panic in the writer goroutine
+// cannot be recovered and kills the process): one producer enqueues objects 0, 1, 0, a Flush, then Stop.
+func bcornerChild(w *world) []string {
+	p0 := w.spawn(0, func() {
+		for i, o := range []int{0, 1, 0} {
+			w.enqueueM(0, w.objs[o%len(w.objs)], modeSet)
+			w.waitCount("w ", i+1, 2*time.Second)
+		}
+		w.rec("fl")
+		w.bw.Flush()
+	})
+	waitFor(p0, stressBound)
+	s0 := w.spawn(100, func() { w.stop(0) })
+
+	return w.finish([]chan struct{}{p0}, []chan struct{}{s0}, stressBound)
+}
+
+// bcornerParent runs the scenario in a child process and returns the events it printed; a child that dies
+// (non-zero exit status) contributes a `panic 0` event after what it had recorded.
+func bcornerParent(c cfg) ([]string, map[int][]string) {
+	cmd := exec.Command(os.Args[0])
+	cmd.Env = append(os.Environ(), "C08_BCORNER_CHILD="+c.line())
+	var out, errb bytes.Buffer
+	cmd.Stdout, cmd.Stderr = &out, &errb
+	done := make(chan error, 1)
+	if err := cmd.Start(); err != nil {
+		return []string{"panic 0"}, nil
+	}
+	go func() { done <- cmd.Wait() }()
+	var err error
+	select {
+	case err = <-done:
+	case <-time.After(60 * time.Second):
+		_ = cmd.Process.Kill()
+		err = <-done
+	}
+	var ev []string
+	plog := map[int][]string{}
+	for _, l := range strings.Split(out.String(), "\n") {
+		switch {
+		case strings.HasPrefix(l, "EV "):
+			ev = append(ev, strings.TrimPrefix(l, "EV "))
+		case strings.HasPrefix(l, "PL "):
+			f := strings.Fields(strings.TrimPrefix(l, "PL "))
+			if len(f) > 0 {
+				p, _ := strconv.Atoi(f[0])
+				plog[p] = f[1:]
+			}
+		}
+	}
+	if err != nil {
+		// the child died: keep what it had recorded before (streamed lines), drop the final store lines if any
+		ev = append(ev, "panic 0")
+	}
+
+	return ev, plog
+}
+
 func runIn(w *world) []string {
 	c := w.c
 	switch c.kind {
+	case "bcorner":
+		return bcornerChild(w)
+
 	case "stop-after-first":
 		// no hook: Enqueue(o0) returns, Stop immediately afterwards
 		p0 := w.spawn(0, func() { w.enqueue(0, w.objs[0]) })
@@ -1086,6 +1168,9 @@ func projections(lines []string, producers, stoppers int) string {
 
 var failCount = map[string]int{}
 
+// streamEvents: set in the child process of a `bcorner` case
+var streamEvents bool
+
 type result struct {
 	c    cfg
 	ev   []string
@@ -1126,7 +1211,11 @@ func emit(r *hx.Run, sub uint64, res result) (failed bool) {
 			wev = append(wev, strings.ReplaceAll(l, " ", "."))
 		}
 	}
-	r.Line(strings.TrimSpace(fmt.Sprintf("wconf b=%d %s", res.c.b, strings.Join(wev, " "))), "conforms")
+	wb := res.c.b
+	if res.c.bk > 0 {
+		wb = 1 // a batch size <= 0: `writtenValuesCounter >= batchSize` holds after every object, as with batch size 1
+	}
+	r.Line(strings.TrimSpace(fmt.Sprintf("wconf b=%d %s", wb, strings.Join(wev, " "))), "conforms")
 	// producer conformance: each producer's own events (its calls, yield points, flag operations, returns); the Lean
 	// driver drives the model's Enqueue (stepProd) with them
 	pids := make([]int, 0, len(res.plog))
@@ -1138,6 +1227,9 @@ func emit(r *hx.Run, sub uint64, res result) (failed bool) {
 		r.Line(fmt.Sprintf("pconf p=%d %s", p, strings.Join(res.plog[p], " ")), "conforms")
 	}
 	r.Count("kind:" + res.c.kind)
+	if res.c.bk > 0 {
+		r.Count([...]string{"", "b:corner-zero", "b:corner-minus-one", "b:corner-min-int"}[res.c.bk%4])
+	}
 	if res.c.uq == 1 {
 		r.Count("q:unbuffered")
 	} else {
@@ -1225,6 +1317,9 @@ func emit(r *hx.Run, sub uint64, res result) (failed bool) {
 		trig := "none"
 		if race {
 			trig = "stop-while-enqueue-in-window"
+		}
+		if res.c.bk > 0 {
+			trig = "batch-size<=0"
 		}
 		excerpt := res.ev
 		if len(excerpt) > 60 {
@@ -1378,6 +1473,17 @@ func b2i(b bool) int {
 }
 
 func main() {
+	if l := os.Getenv("C08_BCORNER_CHILD"); l != "" {
+		// child process of a `bcorner` case: run it, stream the events as they are recorded
+		c, _ := parseCfg(l)
+		streamEvents = true
+		ev, plog := run2(c)
+		_ = ev
+		for p, l := range plog {
+			fmt.Printf("PL %d %s\n", p, strings.Join(l, " "))
+		}
+		os.Exit(0)
+	}
 	r := hx.Start()
 	r.MaxSamples = 2
 	r.Rule = "forced schedules (Stop right after the first Enqueue; producers parked at the verif yield point or inside BatchWriteScheduled while Stop runs) and stress runs " +
@@ -1460,6 +1566,13 @@ func main() {
 		forced = append(forced, cfg{kind: "window-block", q: q, b: 1, t: 1, p: q + 1, o: q + 1, n: 1, seed: s})
 	}
 	runBatch(r, forced, 4)
+	// batch sizes 0, -1 and math.MinInt, each in a child process
+	forced = forced[:0]
+	for i := 0; i < 6*r.Scale; i++ {
+		_, s := r.Rng.Fork()
+		forced = append(forced, cfg{kind: "bcorner", q: 1 + i%3, bk: 1 + i%3, t: 5, p: 1, o: 2, n: 3, fl: 1, uq: b2i(i%6 == 5), seed: s})
+	}
+	runBatch(r, forced, 6)
 	// same-batch: every sequence of two write modes, and random ones of length 3..5, re-enqueued into one batch
 	forced = forced[:0]
 	var mds []string
